@@ -42,6 +42,10 @@ def gen_cases(tier: str, seed: int):
         k = zoo.SYSTEMS[i % len(zoo.SYSTEMS)]
         spec = zoo.random_sys_spec(rng, kinds=(k,), dim_range=(2, 4))
         yield {"kind": "history", "spec": spec, "length": int(rng.integers(4, maxlen + 1)), "seed": [seed, int(rng.integers(0, 2**31))]}
+    for rep in range({"quick": 1, "thorough": 8}[tier]):
+        for k in zoo.SYSTEMS:
+            spec = zoo.random_sys_spec(rng, kinds=(k,), dim_range=(2, 3))
+            yield {"kind": "templates", "spec": spec, "seed": [seed, int(rng.integers(0, 2**31))]}
     m = {"quick": 80, "thorough": 6000}[tier]
     for i in range(m):
         k = zoo.SYSTEMS[i % len(zoo.SYSTEMS)]
@@ -191,6 +195,16 @@ def run_case(case, obs) -> None:
         return
     if case["kind"] == "nocache":
         case_nocache(case, obs)
+        return
+    if case["kind"] == "templates":
+        spec = case["spec"]
+        rng = np.random.default_rng([abs(int(s)) for s in case["seed"]])
+        for prog in hist.template_programs(spec["sys"], rng):
+            runner = hist.Runner(spec, obs, "c09")
+            runner.start(rng)
+            runner.run(prog)
+            obs.count("template_histories")
+        obs.token("templates", spec["sys"], spec.get("metric", spec.get("constr", "-")))
         return
     spec = case["spec"]
     rng = np.random.default_rng([abs(int(s)) for s in case["seed"]])
